@@ -629,7 +629,7 @@ def _get_enum_mapping(cls):
     optionals =  {
         k: getattr(getattr(v, "_fields")[0], "_enum_class")
         for k, v in cls.get_all_fields_by_name().items()
-        if isinstance(v, AnyOf) and getattr(v, "_is_optional") and isinstance(getattr(v, "_fields")[0], Enum)
+        if isinstance(v, AnyOf) and getattr(v, "_is_optional", False) and isinstance(getattr(v, "_fields")[0], Enum)
     }
     return {**without_optionals, **optionals}
 
